@@ -41,6 +41,8 @@ type query = {
   mutable bad : bool;
   mutable ntx : int;
   mutable ncb : int;                   (* callbacks seen before the tear-down *)
+  mutable bad_pending : bool;          (* a BADCOOKIE reply was acted upon: the next transmission is its re-send *)
+  mutable nbad : int;
   mutable virt : int;                  (* TCP frames accepted by ares_conn_query_write but not yet on the wire *)
 }
 
@@ -67,7 +69,9 @@ let case_chan k line lines =
     let nremoved = ref 0 in   (* re-queues caused by the removal of the server a query was waiting on *)
     let sock_tcp : (int, bool) Hashtbl.t = Hashtbl.create 16 in
     let sock_closed : (int, bool) Hashtbl.t = Hashtbl.create 16 in
-    let pending : (int, (int * reply_kind option * bool) Queue.t) Hashtbl.t = Hashtbl.create 16 in  (* socket -> (id, kind, question_ok) *)
+    let sock_srv : (int, int) Hashtbl.t = Hashtbl.create 16 in
+    let supported : (int, unit) Hashtbl.t = Hashtbl.create 4 in   (* servers that have shown a server cookie *)
+    let pending : (int, (int * reply_kind option * string) Queue.t) Hashtbl.t = Hashtbl.create 16 in  (* socket -> (id, reply, cookie form none|echo|bad) *)
     let tx_sock : (int, int * int * bool) Hashtbl.t = Hashtbl.create 64 in   (* x<j> -> socket, qid, opt *)
     let ntx_total = ref 0 in
     let feats = Hashtbl.create 8 in
@@ -82,6 +86,13 @@ let case_chan k line lines =
       List.iter (fun o ->
         match qu.obs with
         | ObsTx (s, tcp, opt, _) :: r when (match o with OTx _ -> true | _ -> false) ->
+          if qu.bad_pending then begin
+            (* C06: at most COOKIE_RESEND_MAX re-sends come from BADCOOKIE replies, the last one over TCP *)
+            qu.bad_pending <- false; qu.nbad <- qu.nbad + 1;
+            Hashtbl.replace feats "badcookie-resend" ();
+            if Z.ltb cOOKIE_RESEND_MAX (zi qu.nbad) then fail k "badcookie-resends-exceed" "query t%d: %d re-sends caused by BADCOOKIE replies (at most %s)" qu.token qu.nbad (string_of_z cOOKIE_RESEND_MAX)
+            else if Z.eqb (zi qu.nbad) cOOKIE_RESEND_MAX && not tcp then fail k "badcookie-no-tcp-fallback" "query t%d: re-send number %d after BADCOOKIE still over UDP" qu.token qu.nbad
+          end;
           qu.obs <- r; qu.trace <- EvOut (OTx (tcp, opt)) :: qu.trace; qu.sock <- s;
           qu.deadline <- !now + maxt * 1000
         | ObsCb st :: r when (match o with ODone _ -> true | _ -> false) ->
@@ -119,6 +130,7 @@ let case_chan k line lines =
           let opt = field "opt" rest = Some "1" and cookie = (match field "cookie" rest with Some "-" | None -> false | _ -> true) in
           let tcp = field "proto" rest = Some "tcp" in
           Hashtbl.replace tx_sock (int_of_string (String.sub x 1 (String.length x - 1))) (sock_of s, id, opt);
+          (match field "srv" rest with Some v when v <> "-" -> Hashtbl.replace sock_srv (sock_of s) (int_of_string v) | _ -> ());
           if tcp then Hashtbl.replace feats "tcp" ();
           (match Hashtbl.find_opt by_qid id with
            | Some qu ->
@@ -168,11 +180,28 @@ let case_chan k line lines =
           (* the walk of read_answers: message by message, until one does not parse *)
           let rec walk_msgs = function
             | [] -> ()
-            | (id, Some kind, _) :: rest ->
+            | (id, Some kind, cform) :: rest ->
               (match Hashtbl.find_opt by_qid id with
                | Some qu ->
                  let same = in_flight qu && qu.sock = s in
                  if alive qu && not same then Hashtbl.replace feats "stale" ();
+                 (* ares_cookie_validate, for a reply that reached it (outstanding on this connection).
+                    reqc: the request carries a cookie.  In the order of the code: no request cookie ->
+                    nothing to check; client cookie not echoed -> dropped; a server cookie marks the
+                    server as supporting cookies; BADCOOKIE without any cookie -> dropped, with one ->
+                    the re-send rule; no cookie from a server that supports them -> dropped *)
+                 let reqc = qu.q.q_req_cookie in
+                 let srv = (match Hashtbl.find_opt sock_srv s with Some i -> i | None -> -1) in
+                 let kind =
+                   if not same || not reqc then { kind with r_cookie_bad = kind.r_cookie_bad && cform = "echo" }
+                   else if cform = "bad" || cform = "raw" then { kind with r_drop = true }
+                   else begin
+                     if cform = "echo" then Hashtbl.replace supported srv ();
+                     if kind.r_cookie_bad then (if cform = "echo" then kind else { kind with r_drop = true })
+                     else if cform = "none" && Hashtbl.mem supported srv then (Hashtbl.replace feats "dropped-expected-cookie" (); { kind with r_drop = true })
+                     else kind
+                   end in
+                 if same && reqc && kind.r_cookie_bad && not kind.r_drop then qu.bad_pending <- true;
                  feed qu (IReply (zi !s_now, tcp, same, kind));
                  if not (List.memq qu !touched) then touched := qu :: !touched
                | None -> ());
@@ -216,12 +245,20 @@ let case_chan k line lines =
       let rcode = match get "rcode" with Some r -> String.uppercase_ascii r | None -> "NOERROR" in
       let noopt = get "noopt" = Some "1" in
       Hashtbl.replace feats ("rsp-" ^ String.lowercase_ascii rcode) ();
+      let cform = match get "cookie" with
+        | None | Some "none" -> "none"
+        | Some c when starts_with "echo" c -> "echo"
+        | Some c when starts_with "bad" c -> "bad"
+        | Some _ -> "raw" in
+      if cform <> "none" then Hashtbl.replace feats ("cookie-" ^ cform) ();
+      let is_badcookie = (rcode = "23" || rcode = "BADCOOKIE") in
+      (fun x -> (x, cform)) @@
       if get "trunc" <> None then None else
       let tc = get "tc" = Some "1" in
       if tc then Hashtbl.replace feats "rsp-tc" ();
-      { r_drop = false; r_cookie_bad = false;
+      { r_drop = false; r_cookie_bad = is_badcookie;     (* finalised when the reply is processed *)
         r_formerr = (rcode = "FORMERR" || rcode = "1");
-        r_has_opt = query_opt && not noopt;
+        r_has_opt = (query_opt || cform <> "none" || is_badcookie) && not noopt;
         r_tc = tc;
         r_err = (match rcode with
             | "SERVFAIL" | "2" -> Some aRES_ESERVFAIL
@@ -260,10 +297,10 @@ let case_chan k line lines =
            let id = match field "id" ws with Some v -> int_of_string v | None -> -1 in
            let dup = match field "dup" ws with Some v -> int_of_string v | None -> 1 in
            let qopt = match Hashtbl.find_opt tx_sock j with Some (_, _, o) -> o | None -> true in
-           let kind = kind_of_spec (snd !cur_spec) qopt in
+           let (kind, cform) = kind_of_spec (snd !cur_spec) qopt in
            if dup > 1 then Hashtbl.replace feats "dup" ();
            let fifo = match Hashtbl.find_opt pending (sock_of s) with Some f -> f | None -> let f = Queue.create () in Hashtbl.replace pending (sock_of s) f; f in
-           for _ = 1 to dup do Queue.push (id, kind, true) fifo done;
+           for _ = 1 to dup do Queue.push (id, kind, cform) fifo done;
            walk rest
          | "REQ" :: t :: "send" :: args ->
            let tok = int_of_string (String.sub t 1 (String.length t - 1)) in
@@ -293,7 +330,7 @@ let case_chan k line lines =
            end else
            let q0 = q_init (List.mem "usevc" flags) (List.exists (starts_with "edns") args) false in
            let qu = { token = tok; qid; q0; q = q0;
-                      trace = []; sock = -1; deadline = 0; obs = []; bad = false; ntx = 0; ncb = 0; virt = 0 } in
+                      trace = []; sock = -1; deadline = 0; obs = []; bad = false; ntx = 0; ncb = 0; virt = 0; bad_pending = false; nbad = 0 } in
            Hashtbl.replace queries tok qu; Hashtbl.replace by_qid qid qu;
            collect_obs block;
            drive qu;
